@@ -117,6 +117,20 @@ def library_crash(p):
     """The harness process died of a panic that no harness code could recover: the panicking goroutine was CREATED BY LIBRARY CODE (a frame under the
     repository follows 'created by'). Returns an excerpt of the Go crash report, or None (any other failure of the harness is an infrastructure failure)."""
     err = p.stderr or ''
+    if p.returncode == 2 and 'fatal error: concurrent map' in err:
+        # the Go runtime found two goroutines in one map and stopped the process.  The map belongs to the code that touches it: when the first
+        # frame outside the runtime of the faulting goroutine is library code, state inside the library is shared by calls that the API allows to
+        # run concurrently (two subscriptions of one pipeline, two producers of a safe subscriber) - real-code behaviour, not a harness failure
+        i = err.find('fatal error: concurrent map')
+        rep = err[i:i + 6000]
+        blk = rep.split('\ngoroutine ', 2)
+        body = blk[1] if len(blk) > 1 else ''
+        for m in re.finditer(r'\n\t(/\S+\.go):\d+', body):
+            f = m.group(1)
+            if '/runtime/' in f or '/internal/runtime/' in f:
+                continue
+            return rep[:3000] if f.startswith(REPO + '/') else None
+        return None
     if p.returncode != 2 or 'panic:' not in err:
         return None
     i = err.rfind('panic:')
